@@ -46,7 +46,7 @@ CHECKS = {
  "C10": dict(
    engine="E1-SimMPI",
    category="fault_enumeration",
-   text="For every sampled valid multi-rank program: the fault-free run, EVERY single communication fault (drop / duplicate / retag / redirect / self on the send and on the receive side, a matched self-loop, a dependency closing a cross-rank cycle) at EVERY live communication operation, and seeded fault pairs. All ranks run find_distributed_partition + verify_distributed_partition on SimMPI under a seeded schedule; per rank the outcome is returned / raised / blocked-forever. The expectation comes from an independent communication model of the built graphs, so cancelling faults must succeed and a correct program must never be rejected.",
+   text="For every sampled valid multi-rank program: the fault-free run, EVERY single communication fault (drop / duplicate / retag / redirect / self on the send and on the receive side, a matched self-loop, a dependency closing a cross-rank cycle) at EVERY live communication operation, and seeded fault pairs. All ranks run find_distributed_partition + verify_distributed_partition on SimMPI under a seeded schedule; per rank the outcome is returned / raised / blocked-forever. A share of the runs uses PROCESS ACTORS (every rank in its own child interpreter with its own hash seed and heap; about 2000 runs per quick run), because the ranks exchange pickles whose meaning must not depend on the interpreter that made them. The expectation comes from an independent communication model of the built graphs, so cancelling faults must succeed and a correct program must never be rejected.",
    design_ref="DESIGN.md sections 4.2, 4.3, 5 (C10)",
    note="Trusted: the communication model as definition of well-formed; the diagnostic family; the rule 'at least one affected rank raises a diagnostic, nobody raises anything else, not everybody returns; a cycle is raised on every rank'. Programs are sampled; faults per program are enumerated.",
    technique="deterministic simulation with fault injection: enumerated program-level communication faults executed on a simulated MPI, per-rank protocol outcome vs an independent model"),
